@@ -146,22 +146,17 @@ def m2(ctx):
                       "FileBasedCollectionMetadata._save no longer calls the save callback with the parser"))
     # construction sites pass a saving callback
     sites = 0
-    for fi in ctx.P.all_funcs():
-        for n in walk_local(fi.node):
-            if isinstance(n, ast.Call) and (dotted(n.func) or "").split(".")[-1] == "FileBasedCollectionMetadata" and fi.module.name.startswith("xandikos.store") \
-                    and fi.cls is not None and fi.cls.qualname != FILE_MD:
-                sites += 1
-                cb = [k.value for k in n.keywords if k.arg == "save"] + list(n.args[1:2])
-                ok = False
-                why = "no save= argument"
-                if cb and isinstance(cb[0], ast.Name):
-                    kind, obj = ctx.P.resolve_dotted(fi.module, cb[0].id, fi)
-                    if kind == "func":
-                        cfgc = ctx.cfg(obj)
-                        ok = any(F.node_mutations(obj, m) for m in cfgc.stmt_nodes())
-                        why = "callback %s %s" % (obj.short, "writes to storage" if ok else "does not write anything")
-                obs.append(ctx.ob(ok, fi.qualname, "%s:%d" % (fi.module.rel, n.lineno), "metadata object gets a saving callback", why,
-                                  "FileBasedCollectionMetadata is constructed in %s with %s: setters cannot persist" % (fi.short, why)))
+    from .common import metadata_savers
+    for fi, n, obj in metadata_savers(ctx):
+        sites += 1
+        ok = False
+        why = "no (resolvable) save= argument"
+        if obj is not None:
+            cfgc = ctx.cfg(obj)
+            ok = any(F.node_mutations(obj, m) for m in cfgc.stmt_nodes())
+            why = "callback %s %s" % (obj.short, "writes to storage" if ok else "does not write anything")
+        obs.append(ctx.ob(ok, fi.qualname, "%s:%d" % (fi.module.rel, n.lineno), "metadata object gets a saving callback", why,
+                          "FileBasedCollectionMetadata is constructed in %s with %s: setters cannot persist" % (fi.short, why)))
     if sites < 2:
         raise AnalysisError("expected 2 construction sites of FileBasedCollectionMetadata in the stores, found %d" % sites)
     return obs
